@@ -35,3 +35,12 @@ func newCodec() *codec {
 func (c *codec) background() {
 	go c.sharedScratchWrite(1)
 }
+
+var template = codec{tbl: make([]uint16, 0, 16)}
+
+// fromTemplate makes an instance by copying a package-level value that contains a slice: the copy
+// is shallow, so every instance shares the slice's backing array (R17.2, aggregate copy).
+func fromTemplate() *codec {
+	c := template
+	return &c
+}
